@@ -27,5 +27,5 @@ def run(ctx):
     n = 300 if q else 3000
     for kinds, label in ((("plain",), "plain environment"), (("space", "grid"), "spatial worlds")):
         runs = _world.random_runs(ctx, n, kinds=kinds, mods="clean", length=60, weights=W, nseeds=200, n_ids=4,
-                                  tags=(None, None, 0, 1, 7, 5))
+                                  tags=(None, None, 0, 1, 7, 5), late_install=True)
         _world.validate_runs(ctx, runs, f"random populations with arbitrary component sets and tags, templates of 0..3 types, tag filters, {label}")
